@@ -163,7 +163,11 @@ func expectCoercedVariables(op *ast.OperationDefinition, vars map[string]interfa
 // ---- model input ---------------------------------------------------------------------------------------
 
 func costSexp(e costExpr) hx.Sexp {
-	if e.Src != "c" {
+	switch e.Src {
+	case "conn": // the model evaluates its own defaultConnectionCost from the spelling of first / last
+		return hx.N("conn", hx.A(e.First), hx.A(e.Last))
+	case "c":
+	default:
 		return hx.A(e.Src)
 	}
 	val := func(isCtx bool, n int) hx.Sexp {
@@ -319,7 +323,7 @@ func (e *refEnv) sels(ss *ast.SelectionSet, M *big.Int, ctx int, depth int, viaF
 				if e.dflt.Set {
 					newCtx = e.dflt.C
 				}
-			case "c":
+			case "c", "conn", "edges":
 				r, m = ce.R, ce.M
 				if ce.RCtx {
 					r = ctx
